@@ -317,8 +317,42 @@ def run_core(line):
     return out
 
 
+_SDL_FILES: dict = {}
+
+
+def run_expect(line):
+    """upstream pinned expectation: tests/test_edgeql_ir_{card,mult}_inference.py on the cards schema"""
+    case = json.loads(line)
+    path = os.path.join(REPO, case['schema_file'])
+    if path not in _SDL_FILES:
+        _SDL_FILES[path] = open(path, encoding='utf-8').read()
+    schema = load_schema(_SDL_FILES[path])
+    try:
+        ir = vrt.compile_query(schema, case['q'])
+    except errors.EdgeDBError as e:
+        return {'got': 'ERR:' + type(e).__name__, 'msg': str(e)[:160]}
+    except Exception as e:   # noqa
+        return {'got': 'ERR:internal:' + type(e).__name__, 'msg': str(e)[:160]}
+    if case['kind'] == 'mult':
+        return {'got': str(ir.multiplicity.value)}
+    field = case.get('field')
+    if field is None:
+        return {'got': str(ir.cardinality.value)}
+    try:
+        shape = ir.expr.expr.result.shape
+        for el, _ in shape:
+            if str(el.path_id.rptr_name()).endswith(field):
+                return {'got': str(el.expr.ptrref.out_cardinality.value)}
+    except Exception as e:   # noqa
+        return {'got': 'ERR:shape:' + type(e).__name__}
+    return {'got': 'ERR:field-not-found'}
+
+
 def run_text(line):
     case = json.loads(line)
+    if 'schema' in case:
+        schema_sx = G.sx_parse_all(case['schema'])[0]
+        case['sdl'] = G.render_sdl(schema_sx)
     schema = load_schema(case['sdl'])
     comp = compile_q(schema, case['q'])
     out = dict(comp)
@@ -331,6 +365,15 @@ def run_text(line):
         except Exception as e:   # noqa
             return out
         for i, dbj in enumerate(case.get('dbs', [])):
+            if isinstance(dbj, str):
+                dsx = G.sx_parse_all(dbj)[0]
+                res, fail = toy_run(qtree, toy_db(schema_sx, dsx))
+                if res is None:
+                    out['r'].append(fail)
+                    continue
+                out['r'].append(' '.join(canon(v) for v in res))
+                out['mon'] += monitors(comp, res, f'db{i}')
+                continue
             data = []
             for o in dbj:
                 d = {}
@@ -353,7 +396,7 @@ def run_text(line):
 
 
 def main():
-    fn = run_core if MODE == 'core' else run_text
+    fn = {'core': run_core, 'text': run_text, 'expect': run_expect}[MODE]
     w = sys.stdout.write
     for line in sys.stdin:
         line = line.rstrip('\n')
